@@ -1066,6 +1066,15 @@ def main2():
         write_ptcp_statics()
     except Unsupported as e:
         report["errors"].append(str(e))
+    try:
+        import extract_ctl
+        dpath = os.path.join(REPO, "agent/discovery.c")
+        d = ast_of(dpath, "priv_discovery_tick_unlocked")
+        txt, info = extract_ctl.translate_tick(d, open(dpath).read(), consts, Unsupported)
+        open(os.path.join(GEN, "DiscoveryTick.lean"), "w").write(txt)
+        report["kernels"]["priv_discovery_tick_unlocked(skeleton)"] = {"file": "agent/discovery.c", "oracle_sites": info["oracle_sites"]}
+    except Unsupported as e:
+        report["errors"].append(f"agent/discovery.c:priv_discovery_tick_unlocked: {e}")
     out.append("end Nice.Gen\n")
     open(os.path.join(GEN, "Kernels.lean"), "w").write("\n".join(out))
     with open(os.path.join(GEN, "Tables.lean"), "w") as f:
